@@ -417,6 +417,9 @@ def finish(pid, tier, seed, acc, t0, w, broken=None):
         rc = 2
     elif new_viol:
         rc = 1
+    elif not acc["samples"]:
+        log("BROKEN: monitor recorded no sample cases")
+        rc = 2
     elif acc["evaluations"] < 1 or distinct < 2:
         log("BROKEN: monitor observed too little (evaluations=%d distinct=%d)" % (acc["evaluations"], distinct))
         rc = 2
